@@ -48,6 +48,12 @@ CLAIMED = {
    text="Proof: Host/Modules.v mirrors prepare, setup_vm_from_program, the process_pending_modules fixed point, execute_pending_module and provide_module over abstract modules (log entry + resolved dependency list), with the FxHashMap iteration order as a parameter. Proved unbounded: NoDup of the load log and dependencies-first for every graph, every early-supply set, every action sequence and every permutation order (c09_bodies_once_deps_first); the entry starts only after all its imports ran (c09_entry_after_imports); request lists are duplicate-free (c09_requests_once). Tie: random DAGs of 2-8 real modules with named/default/namespace imports, re-exports, side-effect and duplicated imports in seven spellings per path, under all-at-once / reverse / shuffled / one-by-one / batched / duplicate+early supply scripts and three GC thresholds: NeedImports rounds (as sets) and load log vs the model; topological log, each body once, schedule-independent result incl. live bindings through bump(), and api::get_export vs the closed-form specification.",
    note="Trusted: Coq kernel; extraction + OCaml driver; Rust harness; the Python module generator and its closed-form expected values. Partial: module bodies are abstract in the model (live bindings and namespace objects are checked by correspondence only); cyclic graphs are out of scope.",
    design_ref="DESIGN.md §5 C09"),
+ "C01": dict(
+   engine="Lang",
+   technique="Coq proof of mechanism M1 (the 23 binary and 6 unary operators on primitive operands equal their ECMAScript definitions, over an abstract IEEE signature) + three-way correspondence tsrun / Coq model (PrimFloat, vm_compute) / node on the operator cross product; probe matrix and generated programs vs node with a committed known-deviation list",
+   text="Proof (partial): Lang/Ops.v renders execute_op's operators (after the seven C01 fixes) on undefined/null/boolean/number/string operands and, separately, the ECMAScript abstract operations (ToNumber, ToString, ToBoolean, IsStrictlyEqual, IsLooselyEqual, IsLessThan, Number::exponentiate, the Int32 operators, short-circuit and nullish selection); c01_binop_refines_es / c01_unop_refines_es prove them equal for every operator and every pair of primitive operands, for every double model satisfying four IEEE comparison laws. Tie: all 23+6 operators x 19x19 operand values evaluated by tsrun, by the model inside Coq and by node (three-way equality, no deviation accepted in this fragment). Reference-only part: ~3000 further probes (operators on objects, conversions, ~520 library entry point x argument-shape probes, 60 control-flow/class/generator snippets) and a typed-grammar program stream against node; the 115 probes and 5 program seeds that deviate on the pinned+fixed tree are listed in corpus/C01/known_deviations.json and reported as KNOWN-FINDING classes; any other deviation is a violation with the probe/program as replay.",
+   note="Trusted: Coq kernel + vm_compute with primitive floats; node 20 as reference engine (also supplies the ToNumber/toString tables of the operand pool); Rust harness; Python generators. Not proved: anything involving objects, the library, statements, functions, classes, generators (reference comparison only). The program stream uses fixed seeds on purpose (see assumptions in the evidence).",
+   design_ref="DESIGN.md §5 C01"),
 }
 
 NOT_YET = "not claimed yet in this revision: its model/theorem pair is not built; see DESIGN.md §5 and §8 (build order)"
